@@ -98,6 +98,7 @@ type world struct {
 	queue         []*hmsg // honest messages broadcast and not yet gossiped
 	honest        []*hmsg // honest messages already gossiped (mutation sources)
 	sigMemo       map[string][]byte
+	fdb           *sim.FaultDB
 	lastConsOrder []*hmsg
 	lastCons      map[string]*hmsg // (validator, role, signer) -> last accepted single-signer consensus message
 	ref           *reference
@@ -145,7 +146,8 @@ func newWorld(d *sim.D, prop string) *world {
 	time.Sleep(time.Until(w.netCfg.Beacon.GetSlotStartTime(w.slot0)))
 
 	var err error
-	if w.ns, err = nodestorage.NewNodeStorage(logger, sim.NewMemDB()); err != nil {
+	w.fdb = sim.NewFaultDB(sim.NewMemDB()) // no faults armed: the wrapper only offers the yield point of pair.go
+	if w.ns, err = nodestorage.NewNodeStorage(logger, w.fdb); err != nil {
 		panic(err)
 	}
 	for id := 1; id <= strangerOp; id++ {
